@@ -110,6 +110,25 @@ func parseObserved(src string, v int) ParseOut {
 	return ParseOut{Prog: prog, Err: err, Errors: p.Errors(), P: p}
 }
 
+// parseByHand drives the statement loop through the public API (ParseStatement / NextToken), the way a REPL or a tool
+// that wants the statements one at a time does, and reads Errors() afterwards. Same steps as ParseProgram.
+func parseByHand(src string, m Mode) ParseOut {
+	p := newBuilder(m).Build(src)
+	prog := &ast.Program{Statements: []ast.Statement{}}
+	for p.CurrentToken.Type != token.EOF {
+		if st := p.ParseStatement(); !walkNil(st) {
+			prog.Statements = append(prog.Statements, st)
+		}
+		p.NextToken()
+	}
+	prog.EOF = p.CurrentToken
+	var err error
+	if errs := p.Errors(); len(errs) > 0 {
+		err = fmt.Errorf("parsing failed with %d errors: %v", len(errs), errs[0])
+	}
+	return ParseOut{Prog: prog, Err: err, Errors: p.Errors(), P: p}
+}
+
 // Cfg is a compiler configuration.
 type Cfg struct {
 	Pretty bool
